@@ -146,7 +146,12 @@ def run(ctx, prop, PROPS, LEVEL):
                    "which every load / store of `threadcount` in the unmodified dsh.c is a scheduling point (dsh_tu.c "
                    "compiled with -fsanitize=thread instrumentation calls, served by harness/sched/mem_hooks.c, no TSan "
                    "runtime), exhaustive for tiny configurations and random beyond; these runs are judged by the monitors "
-                   "only.  Distinct = distinct projected event "
+                   "only; (d) timed scenarios from the C07 generator (virtual clock, -t/-u, hosts that hang, keep talking past the "
+                   "deadline, outlive their streams, ignore SIGTERM), N > fanout mostly: same monitors, a connection "
+                   "counting as in flight until rcmd_destroy() has returned having reaped the command; (e) ^C then ^Z "
+                   "injected at random points at a granularity where a fresh worker has not yet looked at its slot: no "
+                   "hang, no early return, no excess (monitors only).  C04 also runs the scratch-built pdsh -R exec -u 1 "
+                   "with commands that count their live siblings (real part).  Distinct = distinct projected event "
                    "trace; non-trivial = N>=2 and the dispatcher waited at least once"}
     dist = {"strategy": {}, "yield": {}, "with_spurious": 0, "N": {}, "dfs": [], "status": {}, "rejects": 0}
     cov["distribution"] = dist
@@ -184,7 +189,8 @@ def explore_all(ctx, prop, exe_san, exe, variant, cov, dist):
         # runs at memory-access granularity are judged by the monitors only: the LTS attributes the code between
         # two calls to the earlier call, which is exactly what those runs do not do
         batches = [sched.project_fan(r, variant) if r["crash"] is None and not r["bug"] and
-                   "mem" not in r["case"].get("yield", "") else None for r in results]
+                   "mem" not in r["case"].get("yield", "") and not r["case"].get("signals_case") else None
+                   for r in results]
         idx = [i for i, b in enumerate(batches) if b is not None]
         verdicts = sched.accept_all(ctx, [batches[i] for i in idx]) if idx else []
         for i, bad in zip(idx, verdicts):
@@ -207,6 +213,10 @@ def explore_all(ctx, prop, exe_san, exe, variant, cov, dist):
                     cov["samples"].append({"fanout": m["fanout"], "n": m["n"], "schedule": " ".join(r["choices"]),
                                            "trace": [l[3:] for l in b if l.startswith("ev ")], "peak": m["peak"]})
             for p, sig, what in sched.offenders(r):
+                if r["case"].get("timed") and sig == "output-not-delivered":
+                    continue              # a host given up on has, by design, not been relayed completely
+                if r["case"].get("signals_case") and sig in ("not-started", "output-not-delivered", "parked-with-room"):
+                    continue              # the user cancelled the pending targets
                 if p in (prop, "*"):
                     if not is_known(sig):
                         newcount[0] += 1
@@ -273,8 +283,57 @@ def explore_all(ctx, prop, exe_san, exe, variant, cov, dist):
         dist["yield"]["fan,mem"] = len(memcases)
         consume(sched.run_many(ctx.exe_mem, memcases, ctx.scratch))
 
+    # 1c. timed scenarios (virtual clock, -t / -u, hosts that hang, keep talking, outlive their streams, ignore
+    #     SIGTERM): the same monitors.  A connection is in flight from connectBegin until rcmd_destroy() has RETURNED
+    #     having reaped the command -- not when the worker merely gave up on the host.
+    if newcount[0] < 30:
+        from vlib import timedcheck as T
+        tcases = []
+        for _ in range(500 if ctx.quick() else 5000):
+            ct, ut = rng.choice([1, 2, 3]), rng.choice([1, 1, 2, 3])
+            A = T.alphabet(ct, ut)
+            n = rng.randrange(2, 6)
+            f = rng.randrange(1, n) if rng.random() < 0.85 else n
+            keys = rng.choices(["ok", "ok2", "hang-after", "chatty", "chatty-odd", "chatty-ends", "outlives", "stubborn",
+                                "cmd-far", "cmd-over", "hang-connect", "refuse", "close-out-early", "silent"],
+                               [14, 6, 10, 8, 6, 5, 10, 10, 6, 4, 5, 4, 4, 4], k=n)
+            c = T.mk_case([A[k] for k in keys], f, ct, ut, rng.random() < 0.4, rng.randrange(1, 1 << 30),
+                          strategy=rng.choice(["uniform", "uniform", "starveD", "eagerD"]))
+            c["timed"] = True
+            if T.excluded(c):
+                continue
+            tcases.append(c)
+        dist["yield"]["fan (timed scenarios)"] = len(tcases)
+        for i in range(0, len(tcases), 1000):
+            chunk = tcases[i:i + 1000]
+            consume(sched.run_many(exe_san, chunk[::4], ctx.scratch) +
+                    sched.run_many(exe, [c for j, c in enumerate(chunk) if j % 4], ctx.scratch))
+        ctx.log("timed scenarios (-t/-u, hanging / talking / outliving / SIGTERM-ignoring hosts): %d runs" % len(tcases))
+
+    # 1d. ^C then ^Z (cancel pending targets) delivered at arbitrary points, at a granularity where a freshly created
+    #     worker has not yet looked at its slot: every created worker must still go through its epilogue, dsh() must
+    #     return.  (Which targets get cancelled is C20's business; here only: no hang, no early return, no excess.)
+    if newcount[0] < 30:
+        scases = []
+        for _ in range(500 if ctx.quick() else 5000):
+            n = rng.randrange(2, 6)
+            f = rng.randrange(1, n + 1)
+            k = rng.randrange(0, 14 + 10 * n)
+            c = {"fanout": f, "hosts": [{"name": "g%d" % i, "out": [[0, ("l%d\n" % i).encode().hex()]]} for i in range(n)],
+                 "seed": rng.randrange(1, 1 << 30), "budget": 6000 + 1500 * n,
+                 "yield": rng.choice(["fan,time", "fan,time", "fan,time,thd", "all"]), "inline": 0,
+                 "strategy": rng.choice(["uniform", "uniform", "pct", "starveD", "eagerD"]), "pct": [3, 60 + 30 * n],
+                 "signals": [[k, 2], [k + rng.randrange(1, 8), 20]], "signals_case": True}
+            scases.append(c)
+        dist["yield"]["^C^Z injected"] = len(scases)
+        for i in range(0, len(scases), 1000):
+            chunk = scases[i:i + 1000]
+            consume(sched.run_many(exe_san, chunk[::4], ctx.scratch) +
+                    sched.run_many(exe, [c for j, c in enumerate(chunk) if j % 4], ctx.scratch))
+        ctx.log("^C^Z injected at random points: %d runs" % len(scases))
+
     # 2. random schedules
-    nrand = 4000 if ctx.quick() else 40000
+    nrand = 3000 if ctx.quick() else 40000
     nmax = 8 if ctx.quick() else 40
     cases = []
     for _ in range(nrand):
